@@ -22,29 +22,101 @@ class SimAbort(BaseException):
 
 
 _PKG = None
-_code_cache = {}
+_MON = sys.monitoring
+TOOL = 3
+_tool_ready = False
+_codes = None
+_active = {}  # thread ident -> callable(code, where) invoked at every library line / instruction
+_enabled = None
 
 
-def _is_lib(code):
-    r = _code_cache.get(code)
-    if r is None:
-        global _PKG
-        if _PKG is None:
-            _PKG = pkg_dir()
-        r = code.co_filename.startswith(_PKG)
-        _code_cache[code] = r
-    return r
+def _pkg():
+    global _PKG
+    if _PKG is None:
+        _PKG = pkg_dir()
+    return _PKG
 
 
-def short_loc(frame):
-    return (frame.f_code.co_filename[len(_PKG):], frame.f_lineno)
+def library_code_objects():
+    """Every code object defined in an openskill module (functions, methods, lambdas, nested)."""
+    global _codes
+    if _codes is not None:
+        return _codes
+    import types
+
+    from core import library_modules
+
+    seen = set()
+    out = []
+
+    def walk(co):
+        if co in seen:
+            return
+        seen.add(co)
+        if co.co_filename.startswith(_pkg()):
+            out.append(co)
+        for c in co.co_consts:
+            if isinstance(c, types.CodeType):
+                walk(c)
+
+    for m in library_modules():
+        for v in list(vars(m).values()):
+            if isinstance(v, types.FunctionType):
+                walk(v.__code__)
+            elif isinstance(v, type) and getattr(v, "__module__", None) == m.__name__:
+                for cv in list(vars(v).values()):
+                    f = getattr(cv, "__func__", cv)
+                    if isinstance(f, types.FunctionType):
+                        walk(f.__code__)
+    _codes = out
+    return out
+
+
+def _on_event(code, where):
+    f = _active.get(_thread.get_ident())
+    if f is not None:
+        f(code, where)
+
+
+class instrumented:
+    """Switch library-local LINE / INSTRUCTION events on for the duration of a block.  Entered
+    and left only at quiescent points (no worker thread alive), which is what keeps CPython
+    3.12.1's instrumentation stable - sys.settrace with f_trace_opcodes segfaults under threads."""
+
+    def __init__(self, gran):
+        self.ev = _MON.events.INSTRUCTION if gran == "opcode" else _MON.events.LINE
+
+    def __enter__(self):
+        global _tool_ready, _enabled
+        if not _tool_ready:
+            _MON.use_tool_id(TOOL, "leaguesim")
+            _MON.register_callback(TOOL, _MON.events.LINE, _on_event)
+            _MON.register_callback(TOOL, _MON.events.INSTRUCTION, _on_event)
+            _tool_ready = True
+        if _enabled is not None:
+            raise HarnessError("nested instrumentation")
+        for co in library_code_objects():
+            _MON.set_local_events(TOOL, co, self.ev)
+        _enabled = self.ev
+        return self
+
+    def __exit__(self, *a):
+        global _enabled
+        for co in library_code_objects():
+            _MON.set_local_events(TOOL, co, 0)
+        _enabled = None
+        return False
+
+
+def short_loc(code, where):
+    return (code.co_filename[len(_PKG):], code.co_firstlineno, where)
 
 
 # ------------------------------------------------------------------ single-thread tracing
 
 
 class LineCounter:
-    """Trace the current thread: count library yield points, optionally crash at the n-th."""
+    """Run a call on the current thread: count library yield points, crash at the n-th."""
 
     def __init__(self, crash_at=None, gran="line", cap=5_000_000):
         self.crash_at = crash_at
@@ -53,49 +125,40 @@ class LineCounter:
         self.cap = cap
         self.fired = False
         self.fired_loc = None
-        self._ev = "opcode" if gran == "opcode" else "line"
 
-    def _g(self, frame, event, arg):
-        if _is_lib(frame.f_code):
-            if self.gran == "opcode":
-                frame.f_trace_opcodes = True
-            return self._l
-        return None
-
-    def _l(self, frame, event, arg):
-        if event == self._ev:
-            self.steps += 1
-            if self.steps == self.crash_at:
-                self.fired = True
-                self.fired_loc = short_loc(frame)
-                raise SimCrash()
-            if self.steps > self.cap:
-                raise SimAbort("step cap")
-        return self._l
+    def _cb(self, code, where):
+        self.steps += 1
+        if self.steps == self.crash_at:
+            self.fired = True
+            self.fired_loc = short_loc(code, where)
+            raise SimCrash()
+        if self.steps > self.cap:
+            raise SimAbort("step cap")
 
     def run(self, fn):
         """Run fn() traced. Returns ('ok', value) | ('crash', None) | ('exc', exception)."""
-        old = sys.gettrace()
-        sys.settrace(self._g)
-        try:
+        me = _thread.get_ident()
+        with instrumented(self.gran):
+            _active[me] = self._cb
             try:
-                return ("ok", fn())
-            except SimCrash:
-                return ("crash", None)
-            except SimAbort:
-                raise
-            except Exception as e:  # library raised
-                return ("exc", e)
-        finally:
-            sys.settrace(old)
+                try:
+                    return ("ok", fn())
+                except SimCrash:
+                    return ("crash", None)
+                except SimAbort:
+                    raise
+                except Exception as e:  # library raised
+                    return ("exc", e)
+            finally:
+                del _active[me]
 
 
 def warm_up():
-    """CPython 3.12: the first traced call of a process delivers no 'opcode' events."""
+    """Touch every code path of the tracer once (instrumentation set-up is process-global)."""
     from core import load_openskill
 
     m = load_openskill().PlackettLuce()
-    for gran in ("opcode", "line", "opcode"):
+    for gran in ("opcode", "line"):
         lc = LineCounter(gran=gran)
         lc.run(lambda: m.rate([[m.rating()], [m.rating()]]))
     return lc.steps
@@ -244,7 +307,6 @@ class Sched:
         self.n = n
         self.chooser = chooser
         self.gran = gran
-        self._ev = "opcode" if gran == "opcode" else "line"
         self.crash = tuple(crash) if crash else None  # (thread, call index, step in call)
         self.crash_fired = False
         self.crash_loc = None
@@ -286,12 +348,14 @@ class Sched:
     def end_call(self, i):
         self.in_call[i] = False
 
-    def _yield(self, i, frame):
+    def _yield(self, i, code, where):
+        if not self.in_call[i]:
+            return  # library code run by the harness itself (rating(), create_rating()): atomic
         self.steps += 1
         if self.steps > self.step_cap:
             raise SimAbort("step cap %d exceeded" % self.step_cap)
         self.call_steps[i] += 1
-        loc = short_loc(frame)
+        loc = (code.co_filename[self._plen:], code.co_firstlineno, where)
         self.loc[i] = loc
         self.lines_seen.add(loc)
         c = self.crash
@@ -311,31 +375,14 @@ class Sched:
             if self.error is not None:
                 raise SimAbort("aborted")
 
-    def _make_trace(self, i):
-        ev = self._ev
-        opcode = self.gran == "opcode"
-
-        def ltrace(frame, event, arg):
-            if event == ev:
-                self._yield(i, frame)
-            return ltrace
-
-        def gtrace(frame, event, arg):
-            if _is_lib(frame.f_code):
-                if opcode:
-                    frame.f_trace_opcodes = True
-                return ltrace
-            return None
-
-        return gtrace
-
     def rearm(self, i):
-        sys.settrace(self._traces[i])
+        pass  # monitoring callbacks stay installed after an exception (unlike sys.settrace)
 
     def _body(self, i, fn):
         self.locks[i].acquire()
         if self.error is None:
-            sys.settrace(self._traces[i])
+            me = _thread.get_ident()
+            _active[me] = lambda code, where: self._yield(i, code, where)
             try:
                 fn(self, i)
             except SimAbort as e:
@@ -347,7 +394,7 @@ class Sched:
 
                     self.error = "thread %d: %r\n%s" % (i, e, traceback.format_exc())
             finally:
-                sys.settrace(None)
+                _active.pop(me, None)
         self.alive[i] = False
         nxt = None
         if any(self.alive):
@@ -365,16 +412,17 @@ class Sched:
 
     def run(self, fns):
         assert len(fns) == self.n
-        self._traces = [self._make_trace(i) for i in range(self.n)]
-        ths = [threading.Thread(target=self._body, args=(i, fn), daemon=True) for i, fn in enumerate(fns)]
-        for t in ths:
-            t.start()
-        first = self._decide(None)
-        self.locks[first].release()
-        if not self.main_lock.acquire(timeout=self.timeout):
-            raise HarnessError("scheduler watchdog: threads did not finish in %.0fs" % self.timeout)
-        for t in ths:
-            t.join(self.timeout)
+        self._plen = len(_pkg())
+        with instrumented(self.gran):
+            ths = [threading.Thread(target=self._body, args=(i, fn), daemon=True) for i, fn in enumerate(fns)]
+            for t in ths:
+                t.start()
+            first = self._decide(None)
+            self.locks[first].release()
+            if not self.main_lock.acquire(timeout=self.timeout):
+                raise HarnessError("scheduler watchdog: threads did not finish in %.0fs" % self.timeout)
+            for t in ths:
+                t.join(self.timeout)
         if self.error is not None:
             raise HarnessError("scheduler: %s" % self.error)
         return self
